@@ -36,6 +36,22 @@ def stringDec (valid : Bytes → Bool) : Dec Bytes :=
 /-- `String::consensus_encode`: varint of the byte length, then the bytes -/
 def encString (s : Bytes) : Bytes := encVarint s.length ++ s
 
+/-- `RctType::consensus_decode` as a stand-alone codec (ringct.rs:659-674): one byte, accepted iff 0..6; the value is its number -/
+def rctType : Dec Nat := bind u8 fun t => if t.toNat > 6 then fail else pure' t.toNat
+/-- `RctType::consensus_encode` (ringct.rs:676-689): the variant's number as one byte -/
+def encRctType (ty : Nat) : Bytes := [UInt8.ofNat ty]
+/-- `bool::consensus_decode` = `read_i8 != 0` (encode.rs:233, 396): ANY non-zero byte is `true` — not a canonical codec; `bool`
+is not reachable from Block / Transaction -/
+def boolDec : Dec Bool := bind u8 fun b => pure' (b != 0)
+/-- `emit_bool`: `v as u8` -/
+def encBool (v : Bool) : Bytes := [if v then 1 else 0]
+/-- `iN::consensus_decode` (`impl_int_encodable!`, endian.rs): k little-endian bytes read as two's complement -/
+def intLE (k : Nat) : Dec Int := bind (uintLE k) fun n => pure' (if n < 256^k / 2 then (n : Int) else (n : Int) - ((256^k : Nat) : Int))
+/-- `iN::consensus_encode`: the two's-complement residue, little endian -/
+def encIntLE (k : Nat) (v : Int) : Bytes := leBytes (v % ((256^k : Nat) : Int)).toNat k
+/-- `MultisigKlrki { K, L, R, ki }` (ringct.rs:160-171): four keys -/
+def klrki : Dec Bytes := takeN 128
+
 /-- strict decoding (`deserialize`): everything must be consumed -/
 def strict {α} (d : Dec α) (b : Bytes) : Option α := match d b with | some (x, []) => some x | _ => none
 end Monero
